@@ -207,6 +207,16 @@ impl TransformerContext {
             let translate_x = el.get_attr("x");
             let translate_y = el.get_attr("y");
             if translate_x.is_some() || translate_y.is_some() {
+                // x / y with a unit or a percentage are plain SVG which we cannot place:
+                // such an instance has no box (as for any other element so written)
+                let placeable = |v: &Option<String>| {
+                    v.as_ref().is_none_or(|v| {
+                        strp(v).is_ok() || v.contains(['$', '#', '^'])
+                    })
+                };
+                if !placeable(&translate_x) || !placeable(&translate_y) {
+                    el_bbox = None;
+                }
                 if let Some(ref mut bbox) = &mut el_bbox {
                     el_bbox = Some(bbox.translated(
                         translate_x.map(|tx| strp(&tx)).unwrap_or(Ok(0.))?,
